@@ -17,7 +17,8 @@
 (*   TruncateAfterKv   [FALSE before the fix]  cut the file after the new  *)
 (*                     trailer in update_file_custom_metadata              *)
 (*   TruncateAfterAppend [FALSE]  same for the append path                 *)
-(*   RestoreOnFailure  [FALSE]  a failed append puts the saved tail back   *)
+(*   RestoreOnFailure  [FALSE before the fix] a failed append puts the     *)
+(*                     saved tail back (and truncates: RestoreTruncates)   *)
 (***************************************************************************)
 EXTENDS FileBytes, FiniteSets, TLC
 
@@ -33,7 +34,8 @@ CONSTANTS
   MaxOps,          \* operations per history
   MetaFileAllowed, \* also explore a pure-metadata file (loc = 4)
   EnableKv, EnableAppend, EnableFail,   \* which operations a history may contain
-  TruncateAfterKv, TruncateAfterAppend, RestoreOnFailure
+  TruncateAfterKv, TruncateAfterAppend, RestoreOnFailure,
+  RestoreTruncates   \* the restored footer is followed by a truncate (FALSE: a model mutant)
 
 Absent == -1                       \* key not present
 None   == -2                       \* update value meaning "remove"
@@ -237,14 +239,14 @@ AppRefuse(kind) ==
   /\ nops' = nops + 1 /\ op' = [kind |-> "refuse", why |-> kind] /\ last' = "raised" /\ pc' = "idle" /\ pos' = -1
   /\ UNCHANGED <<file, isMeta, com, rgext, nrg>>
 
-AppBegin(k, failg, failc, why) ==
+AppBegin(k, failg, failc, why, big) ==
   \* k new row groups; the write raises when it reaches chunk (failg, failc); failg = 0: no failure
   /\ Idle /\ nops < MaxOps /\ ~isMeta
   /\ nops' = nops + 1
   /\ LET found == ReaderFinds(file) IN
      IF found = {}
      THEN Raise /\ UNCHANGED <<file, isMeta, com, rgext, nrg>>
-     ELSE /\ op' = [kind |-> "app", k |-> k, failg |-> failg, failc |-> failc, why |-> why,
+     ELSE /\ op' = [kind |-> "app", k |-> k, failg |-> failg, failc |-> failc, why |-> why, big |-> big,
                     fmd |-> CHOOSE c \in found : TRUE,
                     g |-> 1, c |-> 1, newrgs |-> <<>>, saved |-> <<>>, savedAt |-> 0]
           /\ pc' = "app_tail" /\ pos' = 0
@@ -281,7 +283,9 @@ AppWriteChunk(sz) ==
 (* the column cannot be encoded: exception propagates out of `with of as f`, file closed *)
 AppFail ==
   /\ pc = "app_rgs" /\ op.g <= op.k /\ op.g = op.failg /\ op.c = op.failc
-  /\ file' = IF RestoreOnFailure THEN Norm(Prefix(file, op.savedAt) \o op.saved) ELSE file
+  /\ file' = IF ~RestoreOnFailure THEN file
+             ELSE IF RestoreTruncates THEN Norm(Prefix(file, op.savedAt) \o op.saved)
+             ELSE Norm(Prefix(file, op.savedAt) \o op.saved \o DropBytes(file, op.savedAt + FLen(op.saved)))
   /\ Raise
   \* a partly written row group id is burnt so that ghost extents stay unambiguous
   /\ nrg' = IF op.c = 1 THEN nrg ELSE nrg + 1
@@ -327,9 +331,11 @@ DoAppBegin       == EnableAppend /\ \E k \in 0..MaxNewRgs : \E fg \in 0..k : \E 
                        \E why \in {"none", "encode", "codec"} :
                        /\ (fg = 0 => fc = 1) /\ (fg # 0 => EnableFail) /\ (fg = 0 <=> why = "none")
                        /\ (why = "codec" => fg = 1)      \* an unknown codec is met in the first row group
-                       /\ AppBegin(k, fg, fc, why)
+                       /\ \E big \in BOOLEAN : (big => fg # 0) /\ AppBegin(k, fg, fc, why, big)
 DoAppRefuse      == EnableAppend /\ EnableFail /\ \E kind \in {"columns", "scheme"} : AppRefuse(kind)
-DoAppWriteChunk  == \E sz \in ChunkSizes : AppWriteChunk(sz)
+MaxChunk         == CHOOSE x \in ChunkSizes : \A y \in ChunkSizes : y <= x
+(* a "big" append writes more bytes than the footer it overwrites *)
+DoAppWriteChunk  == \E sz \in ChunkSizes : (op.kind = "app" /\ op.big => sz = MaxChunk) /\ AppWriteChunk(sz)
 DoAppWriteFooter == pc = "app_rgs" /\ op.g > op.k /\ AppWriteFooter(CSize(AppNewContent))
 
 Next ==
